@@ -2,6 +2,7 @@ import EAO.Model.Assemble
 import EAO.Model.Readout
 import EAO.Model.Lagrange
 import EAO.Lemmas.Nodal
+import EAO.Lemmas.Wf
 /-!
 # C07 — the variable mapping is a faithful description of the assembled problem
 
@@ -27,12 +28,30 @@ theorem assemble_sizes (as : List AssetProblem) (gridI : List Nat) (skip : List 
     (assemble as gridI skip).n = (as.map (·.n)).sum ∧
     (assemble as gridI skip).l.length = (assemble as gridI skip).n ∧
     (assemble as gridI skip).u.length = (assemble as gridI skip).n := by
-  sorry
+  refine ⟨assembleFrom_n as 0, ?_, ?_⟩
+  · rw [assemble_l, assemble_n, assembleFrom_n]
+    exact assembleFrom_l_length as 0 (fun a ha => (hwf a ha).len_l)
+  · rw [assemble_u, assemble_n, assembleFrom_n]
+    exact assembleFrom_u_length as 0 (fun a ha => (hwf a ha).len_u)
 
 /-- every column index of every row (asset rows and nodal rows) is an existing variable -/
 theorem assemble_cols (as : List AssetProblem) (gridI : List Nat) (skip : List String)
     (hwf : ∀ a ∈ as, AssetWF gridI a) : (assemble as gridI skip).WFCols := by
-  sorry
+  obtain ⟨hn, hl, hu⟩ := assemble_sizes as gridI skip hwf
+  refine ⟨hl, hu, ?_⟩
+  intro r hr p hp
+  rw [hn]
+  rw [assemble_rows, List.mem_append] at hr
+  rcases hr with hr | hr
+  · have := assembleFrom_cols as 0 (fun a ha => (hwf a ha).cols) r hr p hp
+    omega
+  · obtain ⟨q, _, rfl⟩ := List.mem_map.mp hr
+    obtain ⟨m, hm, _, rfl⟩ := mem_nodalRow_coeffs _ _ _ p hp
+    obtain ⟨i, hi, _, _, h3, _⟩ :=
+      assembleFrom_mapping_block as 0 (fun a ha => (hwf a ha).map) m hm
+    have := offset_add_le as i hi
+    show m.var < _
+    omega
 
 /-- variable `offset i + j` has exactly asset `i`'s cost and bounds for its variable `j` -/
 theorem assemble_block (as : List AssetProblem) (gridI : List Nat) (skip : List String)
@@ -40,7 +59,10 @@ theorem assemble_block (as : List AssetProblem) (gridI : List Nat) (skip : List 
     (assemble as gridI skip).c.getD (offset as i + j) 0 = (as[i]).c.getD j 0 ∧
     (assemble as gridI skip).l.getD (offset as i + j) 0 = (as[i]).l.getD j 0 ∧
     (assemble as gridI skip).u.getD (offset as i + j) 0 = (as[i]).u.getD j 0 := by
-  sorry
+  unfold offset
+  refine ⟨assembleFrom_c_block as 0 i hi j hj, ?_, ?_⟩
+  · exact assembleFrom_l_block as 0 (fun a ha => (hwf a ha).len_l) i hi j hj
+  · exact assembleFrom_u_block as 0 (fun a ha => (hwf a ha).len_u) i hi j hj
 
 /-- every mapping row of the assembled problem is the shifted mapping row of exactly the asset it
     names, and points into that asset's block of variables -/
@@ -49,14 +71,26 @@ theorem assemble_mapping_faithful (as : List AssetProblem) (gridI : List Nat) (s
     ∃ i, ∃ h : i < as.length, m.asset = (as[i]).name ∧ offset as i ≤ m.var ∧
       m.var < offset as i + (as[i]).n ∧ m.var < (assemble as gridI skip).n ∧
       ∃ m' ∈ (as[i]).mapping, m = m'.shift (offset as i) := by
-  sorry
+  rw [assemble_mapping] at hm
+  obtain ⟨i, hi, h1, h2, h3, m', hm', h4⟩ :=
+    assembleFrom_mapping_block as 0 (fun a ha => (hwf a ha).map) m hm
+  have hle := offset_add_le as i hi
+  rw [Nat.zero_add] at h2 h3 h4
+  refine ⟨i, hi, h1, h2, h3, ?_, m', hm', h4⟩
+  rw [assemble_n, assembleFrom_n]
+  omega
 
 /-- a variable without any mapping row occurs in no nodal row -/
 theorem rowless_not_in_nodal (as : List AssetProblem) (gridI : List Nat) (skip : List String)
     (r : Row) (hr : r ∈ (assemble as gridI skip).rows) (hk : r.kind = .N)
     (hnoN : ∀ a ∈ as, ∀ r ∈ a.rows, r.kind ≠ .N) (p : Nat × Rat) (hp : p ∈ r.coeffs) :
     ∃ m ∈ (assemble as gridI skip).mapping, m.var = p.1 ∧ m.kind = .d := by
-  sorry
+  rw [assemble_rows, List.mem_append] at hr
+  rcases hr with hr | hr
+  · exact absurd hk (assembleFrom_rows_noN as 0 hnoN r hr)
+  · obtain ⟨q, _, rfl⟩ := List.mem_map.mp hr
+    obtain ⟨m, hm, hd, rfl⟩ := mem_nodalRow_coeffs _ _ _ p hp
+    exact ⟨m, hm, rfl, ((isDisp_iff _ _ _).mp hd).1⟩
 
 /-- exactly one nodal row per (node ∉ skip, step) that has dispatch, none otherwise: the nodal
     record has no duplicates, characterises those pairs, and lists the N rows in order -/
@@ -67,6 +101,23 @@ theorem nodal_rows_exact (as : List AssetProblem) (gridI : List Nat) (skip : Lis
         (n ∉ skip ∧ ∃ m ∈ (assemble as gridI skip).mapping, isDisp n t m = true)) ∧
     ((assemble as gridI skip).rows.filter (·.kind == .N)) =
       (assemble as gridI skip).nodal.map (fun p => nodalRow (assemble as gridI skip).mapping p.2 p.1) := by
-  sorry
+  refine ⟨?_, ?_, ?_⟩
+  · rw [assemble_nodal]
+    exact nodup_nodalPairs _ _ _ _ (nodup_portfolioNodes as) hg
+  · intro t n
+    rw [assemble_nodal, assemble_mapping, mem_nodalPairs_iff]
+    constructor
+    · rintro ⟨_, hs, _, hany⟩
+      exact ⟨hs, List.any_eq_true.mp hany⟩
+    · rintro ⟨hs, m, hm, hd⟩
+      have hany : (assembleFrom 0 as).mapping.any (isDisp n t) = true :=
+        List.any_eq_true.mpr ⟨m, hm, hd⟩
+      obtain ⟨a, ha, m', hm', o, rfl⟩ := mem_assembleFrom_mapping as 0 m hm
+      rw [isDisp_shift] at hd
+      obtain ⟨hk, hnode, hstep⟩ := (isDisp_iff _ _ _).mp hd
+      obtain ⟨hn, ht⟩ := (hwf a ha).disp m' hm' n hk hnode
+      rw [hstep] at ht
+      exact ⟨mem_portfolioNodes as a ha n hn, hs, ht, hany⟩
+  · exact assemble_filter_N as gridI skip (fun a ha => (hwf a ha).noN)
 
 end EAO.C07
